@@ -54,7 +54,7 @@ MergeLaw == k # 0 =>
           (Applies(s1, e) /\ Applies(s2, Res(s1, e))) =>
              (Applies(m, e) /\ Res(m, e) = Res(s2, Res(s1, e)))
 
-Separated(a, b) == LET ta == Touched(a)  tb == Touched(b) IN
+Separated(a, b) == LET ta == TouchedIn(a, doc)  tb == TouchedIn(b, doc) IN
   ta[1] <= ta[2] /\ tb[1] <= tb[2] /\ (ta[2] + 1 <= tb[1] \/ tb[2] + 1 <= ta[1])
 CommuteLaw == k # 0 =>
   \A a \in {s \in AllU(doc) : Applies(s, doc)} :
